@@ -340,7 +340,7 @@ package xixi_kv
 
 //@ func (*xixi_kv.DB).getNonMergeFileID
 //@   io_effect
-//@   props C06 C07 C02 C01 C14
+//@   props C06 C07 C02 C01 C14 C18
 //@   unshared db
 //@   ensures [absent-marker-reads-zero] old(fs)[fname(dirPath, 0, datafile.MergeFinishedFileSuffix)] == 0 ==> result0 == 0 && result1 == 0
 //@   ensures [no-fs-change] fs == old(fs)
@@ -350,7 +350,7 @@ package xixi_kv
 //@ func (*xixi_kv.DB).loadMergeFiles
 //@   io_effect
 //@   per_return
-//@   props C06 C07 C02 C03 C01 C14
+//@   props C06 C07 C02 C03 C01 C14 C08 C18
 //@   unshared db
 //@   requires [k-adopt] K_adopt(db)
 //@   let D = db.options.DirPath
